@@ -14,7 +14,7 @@ BUDGET = {"quick": 55, "thorough": 900}
 QUICK_CASES = 3000  # generator items in the quick tier (fixed amount of work; BUDGET is then only a safety cap)
 FLOOR = {"quick": 20000, "thorough": 4000}
 TIMEOUT = 90
-REQUIRED_OBS = ["matcher_queries", "guarded_cases", "occurrences", "accepted", "rejected_time_active", "rejected_state_active", "rejected_hold_off", "direct_calls", "transient_watchers", "state_hold_guarded_cases"]
+REQUIRED_OBS = ["matcher_queries", "guarded_cases", "occurrences", "accepted", "rejected_time_active", "rejected_state_active", "rejected_hold_off", "direct_calls", "transient_watchers", "state_hold_guarded_cases", "two_triggers_of_one_type_cases"]
 RULE = (
     "(B) TrigTime.timer_active_check on lists of <= 4 positive/negated range()/cron() specifications (daily, dated, weekday, sunrise/sunset, "
     "now-relative, wrapping midnight) at times incl. every end point -1us/exact/+1us, against an independent window matcher; (A) the real "
@@ -60,6 +60,11 @@ def gen_window(rng, around=True):
     if k < 0.78:
         d = rng.choice([2, 3, 4])  # tue / wed / thu ; BASE is a wednesday
         return {"k": "range", "start": {"date": ["dow", d, rng.random() < 0.5], "time": hm(600 + rng.randint(-30, 30)), "offset": None}, "end": {"date": ["dow", d, False], "time": hm(600 + rng.randint(31, 110)), "offset": None}}
+    if k < 0.81:
+        # only the start carries a weekday / date: the end (a bare time) belongs to the start's day
+        date = rng.choice([["dow", rng.choice([2, 3, 4]), False], ["full", 2024, 5, rng.choice([14, 15, 16])]])
+        a = 600 + rng.randint(-60, 60)
+        return {"k": "range", "start": {"date": date, "time": hm(a), "offset": None}, "end": {"date": None, "time": hm(a + rng.randint(5, 110)), "offset": None}}
     if k < 0.84:
         return {"k": "range", "start": {"date": None, "time": ["sunrise"], "offset": rng.choice([None, ["+", 2, "h", "h", " "]])}, "end": {"date": None, "time": ["sunset"], "offset": rng.choice([None, ["-", 9, "h", "hours", " "]])}}
     if k < 0.9:
@@ -291,7 +296,13 @@ def gen_guarded(rng):
     if kind == "state" and rng.random() < 0.3:
         state_hold, specs, hold_off, far = 10.5, [], None, False
         sa = ["and", ["ne", "pyscript.e0", "off"], rng.choice([["old_eq", "pyscript.e0", "on"], ["ne", "pyscript.e0", "x"], ["attr_eq", "pyscript.e0", "a1", 1], ["old_attr_eq", "pyscript.e0", "a1", 1]])]
-    return {"kind": kind, "specs": specs, "hold_off": hold_off, "sa": sa, "order": order, "occ": occ, "extra": extra, "g0": rng.choice(["on", "off"]), "far": far, "tw": tw, "state_hold": state_hold}
+    # two triggers of the same type on one function: every one of them is guarded
+    second = kind == "event" and rng.random() < 0.35
+    if second:
+        hold_off = None  # (whether hold_off is shared between the triggers of one function is not stated)
+        for o in occ:
+            o["which"] = rng.choice([0, 1])
+    return {"kind": kind, "specs": specs, "hold_off": hold_off, "sa": sa, "order": order, "occ": occ, "extra": extra, "g0": rng.choice(["on", "off"]), "far": far, "tw": tw, "state_hold": state_hold, "second": second}
 
 
 def render_guarded(g):
@@ -300,6 +311,8 @@ def render_guarded(g):
         lines.append("@time_trigger('once(23:30:00)')")
     if g["kind"] == "event":
         lines.append("@event_trigger('ev7')")
+        if g.get("second"):
+            lines.append("@event_trigger('ev7b')")
     elif g["kind"] == "state":
         lines.append("@state_trigger('pyscript.e0', 'pyscript.e0.a1'" + (f", state_hold={g['state_hold']}" if g.get("state_hold") else "") + ")")
     else:
@@ -352,7 +365,7 @@ def run_part_a(case):
             o["at"] = w.clock.local_naive()
             o["g0"] = w.hass.states.get("pyscript.g0").state
             if o["kind"] == "event":
-                w.hass.bus.async_fire("ev7", {"i": i}, context=ctx)
+                w.hass.bus.async_fire("ev7b" if o.get("which") else "ev7", {"i": i}, context=ctx)
             elif o["kind"] == "state":
                 st = w.hass.states.get("pyscript.e0")
                 o["old"] = {"s": st.state, "a": dict(st.attributes)}
@@ -491,6 +504,7 @@ def run_part_a(case):
             "direct_calls": n_direct,
             "transient_watchers": int(bool(g.get("tw"))),
             "state_hold_guarded_cases": int(bool(g.get("state_hold"))),
+            "two_triggers_of_one_type_cases": int(bool(g.get("second"))),
             "legacy_cases": int(case["legacy"]),
             "default_cases": int(not case["legacy"]),
         },
